@@ -160,6 +160,33 @@ CLAIMED = {
         "Sources from -e/stdin, symlink loops and permission faults (runs as root) are outside the domain; message texts "
         "are not compared.",
         "TLA+ model of resolver/cache model-checked by TLC + replay of every scenario against the real binary", "tlc+cli"),
+    "C14": E("model_checking",
+        "spec/Lex.tla: a full reference lexer over bytes (operators with maximal munch and the specification's "
+        "restrictions, numbers with digit separators and exponents, identifiers/keywords, strings with every escape and "
+        "surrogate pairs, verbatim strings, text blocks with indentation stripping, comments), Utf8Lossy, and a "
+        "generator/printer of token sequences with expected kinds, values and spans; TLC checks tiling, print/re-tokenize "
+        "identity, trivia-insensitivity and the UTF-8 laws (all 1 112 064 scalar values) and emits cases: all strings "
+        "<= 4/5 over the operator alphabet, <= 5/7 over the number alphabet, token items and pairs/triples with every "
+        "separator kind, string/text-block fragments, UTF-8 patterns in every container; replayed through "
+        "Lexer::lex_to_eof(true/false). Tiling on arbitrary bytes (random, corpus, truncations, mutations) is validated "
+        "against spec/Trace_Lex.tla by TLC on a sample and by a Python evaluation of the same condition on all.",
+        "DESIGN.md §5 C14",
+        "Error kind and span end of lexical errors are not compared (class and position only); exponents longer than 6 "
+        "digits and `0` followed by a digit are outside the domain.",
+        "TLA+ reference lexer with TLC-checked laws + replay; trace validation of token tilings"),
+    "C15": E("model_checking",
+        "spec/Syntax.tla: syntax trees mirroring ast.rs, the 10-level precedence table, a printer with minimal or "
+        "redundant parentheses that also computes every node's expected first/last token, NeedsSeparator, and a "
+        "precedence-climbing reference parser RefParse; TLC checks RefParse(print(t)) = t for both styles, that every "
+        "parenthesis of the minimal print is required, span nesting, and emits trees: all ordered pairs and triples of the "
+        "19 binary operators plus `in super`, unary x binary x postfix nestings, ~70 contexts x fillers for the "
+        "extends-right forms, postfix chains with the 12 slice layouts, object/comprehension shapes. Replay through "
+        "Parser::parse_root_expr: same tree, same spans for both prints and with one parenthesis pair removed; "
+        "single-token delete/duplicate/swap mutants must be rejected where the reference rejects, with an error that "
+        "points at a token (spec/Trace_Diag.tla validated by TLC on a sample).",
+        "DESIGN.md §5 C15",
+        "Accept/reject of mutated sequences is decided only over the operator-core vocabulary; nesting deeper than 3 is sampled.",
+        "TLA+ grammar/precedence model with reference parser, TLC-checked print/parse laws + replay of trees and spans"),
     "C17": E("model_checking",
         "spec/SortSet.tla defines Sort (unique stable ordered permutation), Uniq, Set, set operations by key, "
         "MinArray/MaxArray declaratively; TLC checks permutation/ordered/stable/idempotence/upstream-definition laws and "
